@@ -212,61 +212,113 @@ theorem delta_filter_eq {s : Store} (hs : s.Truthful) {e : Entry} (hm : MarkOk e
   have := lexGt_ts hr.2
   simpa [Ev.pos] using this
 
+/-! ## The sink's mark: a running lexicographic maximum -/
+
+theorem lexLe_trans {a b c : Nat × Nat} (h1 : lexGt a b = false) (h2 : lexGt b c = false) :
+    lexGt a c = false := by
+  rw [lexGt_false_iff] at *; omega
+
+theorem lexGt_of_gt_le {a b c : Nat × Nat} (h1 : lexGt a b = true) (h2 : lexGt a c = false) :
+    lexGt c b = true := by
+  rw [lexGt_false_iff] at h2; rw [lexGt_iff] at *; omega
+
+theorem lexLe_refl (a : Nat × Nat) : lexGt a a = false := by
+  rw [lexGt_false_iff]; omega
+
+theorem advance_ge (m w : Nat × Nat) :
+    lexGt m (advance m w) = false ∧ lexGt w (advance m w) = false := by
+  unfold advance
+  cases h : lexGt w m with
+  | true =>
+    simp only [if_true]
+    refine ⟨?_, lexLe_refl w⟩
+    rw [lexGt_iff] at h; rw [lexGt_false_iff]; omega
+  | false => simp only [Bool.false_eq_true, if_false]; exact ⟨lexLe_refl m, h⟩
+
+theorem foldl_advance_ge : ∀ (l : List (Nat × Nat)) (init : Nat × Nat),
+    lexGt init (l.foldl advance init) = false ∧ ∀ w ∈ l, lexGt w (l.foldl advance init) = false
+  | [], init => ⟨lexLe_refl init, fun _ h => by cases h⟩
+  | x :: l, init => by
+    obtain ⟨h1, h2⟩ := foldl_advance_ge l (advance init x)
+    obtain ⟨g1, g2⟩ := advance_ge init x
+    simp only [foldl_cons]
+    refine ⟨lexLe_trans g1 h1, ?_⟩
+    intro w hw
+    rcases mem_cons.mp hw with rfl | hw
+    · exact lexLe_trans g2 h1
+    · exact h2 w hw
+
+theorem foldl_advance_mem : ∀ (l : List (Nat × Nat)) (init : Nat × Nat),
+    l.foldl advance init = init ∨ l.foldl advance init ∈ l
+  | [], _ => Or.inl rfl
+  | x :: l, init => by
+    simp only [foldl_cons]
+    rcases foldl_advance_mem l (advance init x) with h | h
+    · rw [h]; unfold advance; split
+      · exact Or.inr mem_cons_self
+      · exact Or.inl rfl
+    · exact Or.inr (mem_cons_of_mem _ h)
+
+theorem sinkMark_append (frames kept : List (List Ev)) :
+    sinkMark (frames ++ kept) = (kept.map frameHw).foldl advance (sinkMark frames) := by
+  simp [sinkMark, map_append, foldl_append]
+
+theorem sinkMark_append_nil (frames : List (List Ev)) : sinkMark (frames ++ []) = sinkMark frames := by
+  simp
+
+/-- The sink's mark is not below the mark of any stored frame. -/
+theorem sinkMark_dominates {frames : List (List Ev)} {f : List Ev} (hf : f ∈ frames) :
+    lexGt (frameHw f) (sinkMark frames) = false :=
+  (foldl_advance_ge (frames.map frameHw) (0, 0)).2 _ (mem_map.mpr ⟨f, hf, rfl⟩)
+
+theorem sinkMark_cases (frames : List (List Ev)) :
+    sinkMark frames = (0, 0) ∨ ∃ f ∈ frames, sinkMark frames = frameHw f := by
+  rcases foldl_advance_mem (frames.map frameHw) (0, 0) with h | h
+  · exact Or.inl h
+  · obtain ⟨f, hf, hfe⟩ := mem_map.mp h
+    exact Or.inr ⟨f, hf, hfe.symm⟩
+
+theorem sinkMark_mono (frames kept : List (List Ev)) :
+    lexGt (sinkMark frames) (sinkMark (frames ++ kept)) = false := by
+  rw [sinkMark_append]; exact (foldl_advance_ge _ _).1
+
+/-- The mark left by the stored frames covers every stored row. -/
+def Covers (frames : List (List Ev)) : Prop :=
+  ∀ r ∈ frames.flatten, lexGt r.pos (sinkMark frames) = false
+
+/-- **The mark is never below a stored row** (since the sink keeps the running maximum). -/
+theorem covers_always (frames : List (List Ev)) : Covers frames := by
+  intro r hr
+  obtain ⟨f, hf, hrf⟩ := mem_flatten.mp hr
+  exact lexLe_trans (not_above_frameHw hrf) (sinkMark_dominates hf)
+
 /-! ## The entry invariant -/
 
 def EntryInv (st : Store) (e : Entry) : Prop :=
   e.frames.flatten.Perm
     (st.vis.filter (fun r => e.q.matches r && !lexGt r.pos (sinkMark e.frames))) ∧ MarkOk e
 
+/-- Reachable states: truthful zone metadata, no flush window open (windows are modelled by the
+explicit `flushBegin` / `flushEnd` pair, which is not a legitimate re-layout), every entry
+consistent with the store. -/
 def Inv (s : St) : Prop :=
-  s.store.Truthful ∧ ∀ n e, s.cat n = some e → EntryInv s.store e
-
-/-- The mark left by the last frame covers every stored row. -/
-def Covers (frames : List (List Ev)) : Prop :=
-  ∀ r ∈ frames.flatten, lexGt r.pos (sinkMark frames) = false
+  s.store.Truthful ∧ s.store.passive = [] ∧ ∀ n e, s.cat n = some e → EntryInv s.store e
 
 /-- Every visible row of the selection is at or below the entry's mark. -/
 def Settled (st : Store) (e : Entry) : Prop :=
   ∀ r ∈ st.vis, e.q.matches r = true → lexGt r.pos (sinkMark e.frames) = false
 
+theorem flushEnd_eq {s : Store} (h : s.passive = []) : s.flushEnd = s := by
+  cases s; simp_all [Store.flushEnd]
+
 theorem inv_init : Inv St.init := by
-  refine ⟨?_, ?_⟩
+  refine ⟨?_, rfl, ?_⟩
   · intro z hz; simp [St.init] at hz
   · intro n e h; simp [St.init] at h
 
 theorem LegitShow.apply {s : St} {n : Nat} {sched : List (List Ev)} (h : LegitShow s n sched)
-    (e : Entry) (he : s.cat n = some e) : sched.flatten.Perm (deltaQuery s.store e) := by
+    (e : Entry) (he : s.cat n = some e) : sched.flatten.Perm (deltaQuery s.store.flushEnd e) := by
   unfold LegitShow at h; rw [he] at h; exact h
-
-/-- Rows a SHOW returns: the stored frames plus the kept delta. -/
-theorem show_rows_perm {s : St} (hi : Inv s) {n : Nat} {e : Entry} (he : s.cat n = some e)
-    {sched : List (List Ev)} (hl : LegitShow s n sched) :
-    (e.frames.flatten ++ (keptBatches (sinkMark e.frames) sched).flatten).Perm
-      (s.store.vis.filter e.q.matches) := by
-  obtain ⟨ht, hcat⟩ := hi
-  obtain ⟨hperm, hm⟩ := hcat n e he
-  rw [kept_flatten]
-  have h1 := (hl.apply e he).filter (fun r => lexGt r.pos (sinkMark e.frames))
-  rw [delta_filter_eq ht hm] at h1
-  exact (Perm.append hperm h1).trans (filter_split _ _ _)
-
-theorem showM_rows {s : St} {n : Nat} {e : Entry} (he : s.cat n = some e) (sched : List (List Ev)) :
-    (showM s n sched).2 = some (e.frames.flatten ++ (keptBatches (sinkMark e.frames) sched).flatten) := by
-  simp [showM, he]
-
-theorem showM_cat {s : St} {n : Nat} {e : Entry} (he : s.cat n = some e) (sched : List (List Ev)) :
-    (showM s n sched).1 = { s with cat := setCat s.cat n (e.afterShow sched) } := by
-  simp [showM, he]
-
-theorem sinkMark_append_nil (frames : List (List Ev)) : sinkMark (frames ++ []) = sinkMark frames := by
-  simp
-
-theorem sinkMark_append_ne {frames kept : List (List Ev)} (h : kept ≠ []) :
-    sinkMark (frames ++ kept) = sinkMark kept := by
-  simp [sinkMark, getLast?_append]
-  cases hk : kept.getLast? with
-  | none => simp [getLast?_eq_none_iff] at hk; exact absurd hk h
-  | some f => simp
 
 theorem kept_rows_above {w0 : Nat × Nat} {sched : List (List Ev)} {b : List Ev}
     (hb : b ∈ keptBatches w0 sched) : b ≠ [] ∧ ∀ r ∈ b, lexGt r.pos w0 = true := by
@@ -276,28 +328,50 @@ theorem kept_rows_above {w0 : Nat × Nat} {sched : List (List Ev)} {b : List Ev}
   intro r hr
   exact (mem_filter.mp hr).2
 
-theorem sinkMark_mem {frames : List (List Ev)} (h : frames ≠ []) :
-    ∃ f ∈ frames, sinkMark frames = frameHw f := by
-  cases hk : frames.getLast? with
-  | none => simp [getLast?_eq_none_iff] at hk; exact absurd hk h
-  | some f => exact ⟨f, mem_of_getLast? hk, by simp [sinkMark, hk]⟩
+/-- What SHOW keeps of its delta: the visible rows of the selection above the mark (no
+hypothesis on how the stored frames relate to the store). -/
+theorem kept_perm {s : St} (ht : s.store.Truthful) (hp : s.store.passive = []) {n : Nat} {e : Entry}
+    (he : s.cat n = some e) (hm : MarkOk e) {sched : List (List Ev)} (hl : LegitShow s n sched) :
+    (keptBatches (sinkMark e.frames) sched).flatten.Perm
+      (s.store.vis.filter (fun r => e.q.matches r && lexGt r.pos (sinkMark e.frames))) := by
+  rw [kept_flatten]
+  have h1 := (hl.apply e he).filter (fun r => lexGt r.pos (sinkMark e.frames))
+  rw [flushEnd_eq hp, delta_filter_eq ht hm] at h1
+  exact h1
 
-/-- A non-empty kept delta leaves a non-zero mark. -/
-theorem kept_mark_nonzero {w0 : Nat × Nat} {sched : List (List Ev)}
-    (h : keptBatches w0 sched ≠ []) : isZero (sinkMark (keptBatches w0 sched)) = false := by
-  obtain ⟨f, hf, hmk⟩ := sinkMark_mem h
-  obtain ⟨hne, habove⟩ := kept_rows_above hf
-  obtain ⟨r, hr⟩ := exists_mem_of_ne_nil f hne
-  have hg := habove r hr
-  have hge := frameHw_ge hr
-  rw [lexGt_iff] at hg
-  rw [hmk]
-  simp only [Ev.pos] at hg
-  cases hz : isZero (frameHw f) with
-  | false => rfl
-  | true =>
-    simp only [isZero, Bool.and_eq_true, beq_iff_eq] at hz
-    omega
+/-- Rows a SHOW returns: the stored frames plus the kept delta. -/
+theorem show_rows_perm {s : St} (hi : Inv s) {n : Nat} {e : Entry} (he : s.cat n = some e)
+    {sched : List (List Ev)} (hl : LegitShow s n sched) :
+    (e.frames.flatten ++ (keptBatches (sinkMark e.frames) sched).flatten).Perm
+      (s.store.vis.filter e.q.matches) := by
+  obtain ⟨ht, hp, hcat⟩ := hi
+  obtain ⟨hperm, hm⟩ := hcat n e he
+  exact (Perm.append hperm (kept_perm ht hp he hm hl)).trans (filter_split _ _ _)
+
+theorem showM_rows {s : St} {n : Nat} {e : Entry} (he : s.cat n = some e) (sched : List (List Ev)) :
+    (showM s n sched).2 = some (e.frames.flatten ++ (keptBatches (sinkMark e.frames) sched).flatten) := by
+  simp [showM, he]
+
+theorem showM_cat {s : St} {n : Nat} {e : Entry} (he : s.cat n = some e) (sched : List (List Ev)) :
+    (showM s n sched).1 = { s with cat := setCat s.cat n (e.afterShow sched) } := by
+  simp [showM, he]
+
+/-- The mark of a kept batch is above the mark the SHOW started with. -/
+theorem kept_frameHw_above {w0 : Nat × Nat} {sched : List (List Ev)} {b : List Ev}
+    (hb : b ∈ keptBatches w0 sched) : lexGt (frameHw b) w0 = true := by
+  obtain ⟨hne, habove⟩ := kept_rows_above hb
+  obtain ⟨r, hr⟩ := exists_mem_of_ne_nil b hne
+  exact lexGt_of_gt_le (habove r hr) (not_above_frameHw hr)
+
+/-- A non-empty kept delta moves the mark strictly up. -/
+theorem kept_mark_above {frames : List (List Ev)} {sched : List (List Ev)}
+    (h : keptBatches (sinkMark frames) sched ≠ []) :
+    lexGt (sinkMark (frames ++ keptBatches (sinkMark frames) sched)) (sinkMark frames) = true := by
+  obtain ⟨b, hb⟩ := exists_mem_of_ne_nil _ h
+  have h1 := kept_frameHw_above hb
+  have h2 : lexGt (frameHw b) (sinkMark (frames ++ keptBatches (sinkMark frames) sched)) = false :=
+    sinkMark_dominates (mem_append_right _ hb)
+  exact lexGt_of_gt_le h1 h2
 
 theorem markOk_after_show {e : Entry} (hm : MarkOk e) (sched : List (List Ev)) :
     MarkOk (e.afterShow sched) := by
@@ -308,27 +382,27 @@ theorem markOk_after_show {e : Entry} (hm : MarkOk e) (sched : List (List Ev)) :
     simp only [nextMark]
     rw [hm]
     cases isZero (sinkMark e.frames) <;> simp
-  · rw [sinkMark_append_ne hk]
-    have hz := kept_mark_nonzero hk
-    simp only [nextMark, hz, Bool.false_eq_true, if_false]
-    by_cases heq : sinkMark (keptBatches (sinkMark e.frames) sched) = sinkMark e.frames
-    · have hz0 : isZero (sinkMark e.frames) = false := heq ▸ hz
-      rw [if_pos heq, hm]
-      simp [hz0, heq]
-    · rw [if_neg heq]
+  · have hab := kept_mark_above hk
+    have hne : sinkMark (e.frames ++ keptBatches (sinkMark e.frames) sched) ≠ sinkMark e.frames := by
+      intro heq; rw [heq, lexLe_refl] at hab; cases hab
+    have hz : isZero (sinkMark (e.frames ++ keptBatches (sinkMark e.frames) sched)) = false := by
+      cases hz : isZero (sinkMark (e.frames ++ keptBatches (sinkMark e.frames) sched)) with
+      | false => rfl
+      | true =>
+        simp only [isZero, Bool.and_eq_true, beq_iff_eq] at hz
+        rw [lexGt_iff] at hab; omega
+    simp only [nextMark, hz, Bool.false_eq_true, if_false, if_neg hne]
 
-/-- SHOW preserves the invariant when the mark it leaves covers the stored rows. -/
+/-- SHOW preserves the invariant. -/
 theorem show_inv {s : St} (hi : Inv s) {n : Nat} {sched : List (List Ev)}
-    (hl : LegitShow s n sched)
-    (hc : ∀ e, s.cat n = some e → Covers (e.frames ++ keptBatches (sinkMark e.frames) sched)) :
-    Inv (showM s n sched).1 := by
+    (hl : LegitShow s n sched) : Inv (showM s n sched).1 := by
   cases he : s.cat n with
   | none => simpa [showM, he] using hi
   | some e =>
     have hrows := show_rows_perm hi he hl
-    obtain ⟨ht, hcat⟩ := hi
+    obtain ⟨ht, hp, hcat⟩ := hi
     rw [showM_cat he]
-    refine ⟨ht, ?_⟩
+    refine ⟨ht, hp, ?_⟩
     intro k e' hk
     simp only [setCat] at hk
     by_cases hkn : k = n
@@ -336,7 +410,7 @@ theorem show_inv {s : St} (hi : Inv s) {n : Nat} {sched : List (List Ev)}
       subst hk
       refine ⟨?_, markOk_after_show (hcat n e he).2 sched⟩
       rw [afterShow_frames, afterShow_q]
-      have hcov := hc e he
+      have hcov := covers_always (e.frames ++ keptBatches (sinkMark e.frames) sched)
       rw [flatten_append]
       refine hrows.trans ?_
       apply Perm.of_eq
@@ -363,14 +437,13 @@ theorem remember_new {s : St} {n : Nat} (he : s.cat n = none) (q : Spec) (now : 
   simp [remember, he]
 
 theorem remember_inv {s : St} (hi : Inv s) {n : Nat} {q : Spec} {now : Nat} {sched : List (List Ev)}
-    (hl : LegitRemember s q sched) (hc : Covers (nonEmpty sched)) :
-    Inv (remember s n q now sched).1 := by
+    (hl : LegitRemember s q sched) : Inv (remember s n q now sched).1 := by
   cases he : s.cat n with
   | some e => rw [remember_dup he]; exact hi
   | none =>
     rw [remember_new he]
-    obtain ⟨ht, hcat⟩ := hi
-    refine ⟨ht, ?_⟩
+    obtain ⟨ht, hp, hcat⟩ := hi
+    refine ⟨ht, hp, ?_⟩
     intro k e' hk
     simp only [setCat] at hk
     by_cases hkn : k = n
@@ -379,7 +452,7 @@ theorem remember_inv {s : St} (hi : Inv s) {n : Nat} {q : Spec} {now : Nat} {sch
       refine ⟨?_, rfl⟩
       rw [initial_frames, initial_q, flatten_nonEmpty]
       unfold LegitRemember at hl
-      rw [runQuery_none] at hl
+      rw [flushEnd_eq hp, runQuery_none] at hl
       refine hl.trans (Perm.of_eq ?_)
       apply filter_congr
       intro r hr
@@ -388,7 +461,7 @@ theorem remember_inv {s : St} (hi : Inv s) {n : Nat} {q : Spec} {now : Nat} {sch
       | true =>
         have hin : r ∈ sched.flatten := hl.mem_iff.mpr (mem_filter.mpr ⟨hr, hq⟩)
         rw [← flatten_nonEmpty] at hin
-        simp [hc r hin]
+        simp [covers_always (nonEmpty sched) r hin]
     · simp only [hkn, if_false] at hk
       exact hcat k e' hk
 
@@ -399,10 +472,10 @@ def EvAbove (s : St) (e : Ev) : Prop :=
     lexGt e.pos (sinkMark ent.frames) = true
 
 theorem store_inv {s : St} (hi : Inv s) {e : Ev} (ha : EvAbove s e) : Inv (step s (.store e)) := by
-  obtain ⟨ht, hcat⟩ := hi
-  refine ⟨ht, ?_⟩
+  obtain ⟨ht, hp, hcat⟩ := hi
+  refine ⟨ht, hp, ?_⟩
   intro n ent hn
-  obtain ⟨hp, hm⟩ := hcat n ent hn
+  obtain ⟨hperm, hm⟩ := hcat n ent hn
   refine ⟨?_, hm⟩
   have : (step s (.store e)).store.vis.filter
         (fun r => ent.q.matches r && !lexGt r.pos (sinkMark ent.frames))
@@ -413,30 +486,30 @@ theorem store_inv {s : St} (hi : Inv s) {e : Ev} (ha : EvAbove s e) : Inv (step 
       | false => simp [hq]
       | true => simp [hq, ha n ent hn hq]
     rw [this]; simp
-  rw [this]; exact hp
+  rw [this]; exact hperm
 
-/-- A change of placement: the same rows, truthful metadata. -/
-def RelayoutOk (old new : Store) : Prop := new.vis.Perm old.vis ∧ new.Truthful
+/-- A change of placement: the same rows, truthful metadata, no flush window left open. -/
+def RelayoutOk (old new : Store) : Prop := new.vis.Perm old.vis ∧ new.Truthful ∧ new.passive = []
 
 instance (a b : Store) : Decidable (RelayoutOk a b) := by unfold RelayoutOk; infer_instance
 
 theorem relayout_inv {s : St} (hi : Inv s) {st : Store} (hr : RelayoutOk s.store st) :
     Inv (step s (.relayout st)) := by
-  obtain ⟨_, hcat⟩ := hi
-  refine ⟨hr.2, ?_⟩
+  obtain ⟨_, _, hcat⟩ := hi
+  refine ⟨hr.2.1, hr.2.2, ?_⟩
   intro n ent hn
   obtain ⟨hp, hm⟩ := hcat n ent hn
   exact ⟨hp.trans (hr.1.filter _).symm, hm⟩
 
 /-! ## Histories -/
 
-/-- The hypothesis of the partial theorem, per step. -/
+/-- The hypothesis of the partial theorem, per step: schedules are legitimate and an applied
+event is above the marks (`EvAbove`). -/
 def StepOk (s : St) : Op → Prop
   | .store e => EvAbove s e
   | .relayout st => RelayoutOk s.store st
-  | .remember _ q _ sched => LegitRemember s q sched ∧ Covers (nonEmpty sched)
-  | .showM n sched => LegitShow s n sched ∧
-      ∀ e, s.cat n = some e → Covers (e.frames ++ keptBatches (sinkMark e.frames) sched)
+  | .remember _ q _ sched => LegitRemember s q sched
+  | .showM n sched => LegitShow s n sched
 
 inductive Reach : St → Prop
   | init : Reach St.init
@@ -449,10 +522,10 @@ theorem reach_inv {s : St} (h : Reach s) : Inv s := by
     cases op with
     | store e => exact store_inv ih hok
     | relayout st => exact relayout_inv ih hok
-    | remember n q now sched => exact remember_inv ih hok.1 hok.2
-    | showM n sched => exact show_inv ih hok.1 hok.2
+    | remember n q now sched => exact remember_inv ih hok
+    | showM n sched => exact show_inv ih hok
 
-/-! ## Instances of the hypotheses -/
+/-! ## Instances of the hypothesis -/
 
 theorem mem_vis_of_frames {st : Store} {e : Entry} (hi : EntryInv st e) {r : Ev}
     (hr : r ∈ e.frames.flatten) : r ∈ st.vis :=
@@ -463,14 +536,12 @@ of every applied event — one shard, monotone clocks) puts the event above ever
 theorem monotone_above {s : St} (hi : Inv s) {e : Ev} (hid : 0 < e.id)
     (hmono : ∀ r ∈ s.store.vis, r.ts ≤ e.ts ∧ r.id < e.id) : EvAbove s e := by
   intro n ent hn _
-  have hinv := hi.2 n ent hn
+  have hinv := hi.2.2 n ent hn
   rw [lexGt_iff]
   simp only [Ev.pos]
-  cases hl : ent.frames.getLast? with
-  | none => simp only [sinkMark, hl]; omega
-  | some f =>
-    simp only [sinkMark, hl]
-    have hf : f ∈ ent.frames := mem_of_getLast? hl
+  rcases sinkMark_cases ent.frames with h0 | ⟨f, hf, hfe⟩
+  · rw [h0]; simp only; omega
+  · rw [hfe]
     have hrows : ∀ r ∈ f, r.ts ≤ e.ts ∧ r.id < e.id := fun r hr =>
       hmono r (mem_vis_of_frames hinv (mem_flatten.mpr ⟨f, hf, hr⟩))
     have h1 : (frameHw f).1 ≤ e.ts := maxOf_le (by
@@ -479,84 +550,53 @@ theorem monotone_above {s : St} (hi : Inv s) {e : Ev} (hid : 0 < e.id)
       intro x hx; obtain ⟨r, hr, rfl⟩ := mem_map.mp hx; exact (hrows r hr).2)
     omega
 
-/-- Stored rows are never above the entry's mark (from the invariant). -/
-theorem covers_of_inv {st : Store} {e : Entry} (hi : EntryInv st e) : Covers e.frames := by
-  intro r hr
-  have := (mem_filter.mp (hi.1.mem_iff.mp hr)).2
-  simp only [Bool.and_eq_true, Bool.not_eq_true'] at this
-  exact this.2
-
-/-- A run that keeps at most one non-empty delta batch leaves a covering mark. -/
-theorem single_batch_covers {st : Store} {e : Entry} (hi : EntryInv st e) {sched : List (List Ev)}
-    (h1 : (keptBatches (sinkMark e.frames) sched).length ≤ 1) :
-    Covers (e.frames ++ keptBatches (sinkMark e.frames) sched) := by
-  match hk : keptBatches (sinkMark e.frames) sched, h1 with
-  | [], _ => simpa using covers_of_inv hi
-  | [b], _ =>
-    have hb : b ∈ keptBatches (sinkMark e.frames) sched := by rw [hk]; exact mem_cons_self
-    obtain ⟨hne, habove⟩ := kept_rows_above hb
-    intro r hr
-    rw [sinkMark_append_ne (by simp)]
-    simp only [sinkMark, getLast?_singleton]
-    rw [flatten_append, mem_append] at hr
-    rcases hr with hr | hr
-    · have hlow := covers_of_inv hi r hr
-      obtain ⟨rb, hrb⟩ := exists_mem_of_ne_nil b hne
-      have hg := habove rb hrb
-      have hge := frameHw_ge hrb
-      rw [lexGt_false_iff] at hlow ⊢
-      rw [lexGt_iff] at hg
-      simp only [Ev.pos] at *
-      omega
-    · simp only [flatten_cons, flatten_nil, append_nil] at hr
-      exact not_above_frameHw hr
-
-/-- REMEMBER whose initial run arrives as at most one non-empty batch leaves a covering mark. -/
-theorem single_batch_covers_remember {sched : List (List Ev)} (h1 : (nonEmpty sched).length ≤ 1) :
-    Covers (nonEmpty sched) := by
-  match hk : nonEmpty sched, h1 with
-  | [], _ => intro r hr; simp at hr
-  | [b], _ =>
-    intro r hr
-    simp only [flatten_cons, flatten_nil, append_nil] at hr
-    simp only [sinkMark, getLast?_singleton]
-    exact not_above_frameHw hr
-
 /-! ## Idempotence -/
 
-/-- After a SHOW that left a covering mark, nothing visible is above the mark. -/
-theorem settled_after_show {s : St} (hi : Inv s) {n : Nat} {e : Entry} (he : s.cat n = some e)
-    {sched : List (List Ev)} (hl : LegitShow s n sched)
-    (hc : Covers (e.frames ++ keptBatches (sinkMark e.frames) sched)) :
-    ∀ r ∈ s.store.vis, e.q.matches r = true →
-      lexGt r.pos (sinkMark (e.frames ++ keptBatches (sinkMark e.frames) sched)) = false := by
-  intro r hr hq
-  have hrows := show_rows_perm hi he hl
-  have hin : r ∈ e.frames.flatten ++ (keptBatches (sinkMark e.frames) sched).flatten :=
-    hrows.mem_iff.mpr (mem_filter.mpr ⟨hr, hq⟩)
-  rw [← flatten_append] at hin
-  exact hc r hin
+/-- The part of the invariant that every legitimate history keeps, with or without `EvAbove`. -/
+def Inv0 (s : St) : Prop :=
+  s.store.Truthful ∧ s.store.passive = [] ∧ ∀ n e, s.cat n = some e → MarkOk e
 
-/-- With nothing above the mark a SHOW keeps no delta batch. -/
-theorem kept_nil_of_settled {s : St} (hi : Inv s) {n : Nat} {e : Entry} (he : s.cat n = some e)
-    (hset : Settled s.store e) {sched : List (List Ev)} (hl : LegitShow s n sched) :
-    keptBatches (sinkMark e.frames) sched = [] := by
-  have hflat : (keptBatches (sinkMark e.frames) sched).flatten = [] := by
-    rw [kept_flatten]
-    have h1 := (hl.apply e he).filter (fun r => lexGt r.pos (sinkMark e.frames))
-    rw [delta_filter_eq hi.1 (hi.2 n e he).2] at h1
-    have : s.store.vis.filter (fun r => e.q.matches r && lexGt r.pos (sinkMark e.frames)) = [] := by
-      rw [filter_eq_nil_iff]
-      intro r hr
-      cases hq : e.q.matches r with
+/-- SHOW twice on an unchanged store: the second SHOW keeps no delta batch. Needs nothing about
+how the frames relate to the store — only truthful zones and a consistent mark. -/
+theorem second_show_keeps_nothing {s : St} (ht : s.store.Truthful) (hp : s.store.passive = [])
+    {n : Nat} {e : Entry} (he : s.cat n = some e) (hm : MarkOk e)
+    {sched₁ sched₂ : List (List Ev)} (hl₁ : LegitShow s n sched₁)
+    (hl₂ : LegitShow (showM s n sched₁).1 n sched₂) :
+    keptBatches (sinkMark (e.afterShow sched₁).frames) sched₂ = [] := by
+  have he' : (showM s n sched₁).1.cat n = some (e.afterShow sched₁) := by
+    rw [showM_cat he]; simp [setCat]
+  have hst : (showM s n sched₁).1.store = s.store := by rw [showM_cat he]
+  have hk2 := kept_perm (s := (showM s n sched₁).1) (by rw [hst]; exact ht) (by rw [hst]; exact hp)
+    he' (markOk_after_show hm sched₁) hl₂
+  rw [hst] at hk2
+  have hk1 := kept_perm ht hp he hm hl₁
+  have hempty : s.store.vis.filter (fun r => (e.afterShow sched₁).q.matches r &&
+      lexGt r.pos (sinkMark (e.afterShow sched₁).frames)) = [] := by
+    rw [filter_eq_nil_iff]
+    intro r hr
+    rw [afterShow_q, afterShow_frames]
+    cases hq : e.q.matches r with
+    | false => simp
+    | true =>
+      cases hg : lexGt r.pos (sinkMark (e.frames ++ keptBatches (sinkMark e.frames) sched₁)) with
       | false => simp
-      | true => simp [hset r hr hq]
-    rw [this] at h1
-    exact h1.eq_nil
-  cases hk : keptBatches (sinkMark e.frames) sched with
+      | true =>
+        -- above the new mark ⇒ above the old one ⇒ kept by the first SHOW ⇒ stored ⇒ covered
+        have hg0 : lexGt r.pos (sinkMark e.frames) = true := by
+          have hmono := sinkMark_mono e.frames (keptBatches (sinkMark e.frames) sched₁)
+          rw [lexGt_iff] at hg ⊢; rw [lexGt_false_iff] at hmono; omega
+        have hin : r ∈ (keptBatches (sinkMark e.frames) sched₁).flatten :=
+          hk1.mem_iff.mpr (mem_filter.mpr ⟨hr, by simp [hq, hg0]⟩)
+        have hcov := covers_always (e.frames ++ keptBatches (sinkMark e.frames) sched₁) r
+          (by rw [flatten_append]; exact mem_append_right _ hin)
+        rw [hcov] at hg; cases hg
+  rw [hempty] at hk2
+  have hflat := hk2.eq_nil
+  cases hk : keptBatches (sinkMark (e.afterShow sched₁).frames) sched₂ with
   | nil => rfl
   | cons b L =>
-    have hb : b ∈ keptBatches (sinkMark e.frames) sched := by rw [hk]; exact mem_cons_self
+    have hb : b ∈ keptBatches (sinkMark (e.afterShow sched₁).frames) sched₂ := by
+      rw [hk]; exact mem_cons_self
     obtain ⟨hne, _⟩ := kept_rows_above hb
     rw [hk] at hflat
     simp only [flatten_cons, append_eq_nil_iff] at hflat
@@ -579,9 +619,9 @@ theorem vis_flush_perm (s : Store) (shard now : Nat) : (s.flush shard now).vis.P
     rw [← append_assoc]
     exact Perm.append_right _ h
 
-theorem flush_ok {s : Store} (hs : s.Truthful) {shard now : Nat}
+theorem flush_ok {s : Store} (hs : s.Truthful) (hp : s.passive = []) {shard now : Nat}
     (hclock : ∀ r ∈ s.mem, r.ts ≤ now + 1) : RelayoutOk s (s.flush shard now) := by
-  refine ⟨vis_flush_perm s shard now, ?_⟩
+  refine ⟨vis_flush_perm s shard now, ?_, by unfold Store.flush; simp only; split <;> exact hp⟩
   unfold Store.flush
   simp only
   split
@@ -606,9 +646,9 @@ theorem vis_compact_perm (s : Store) (shard now : Nat) : (s.compact shard now).v
     rw [flatMap_append]
     exact perm_append_comm
 
-theorem compact_ok {s : Store} (hs : s.Truthful) {shard now : Nat}
+theorem compact_ok {s : Store} (hs : s.Truthful) (hp : s.passive = []) {shard now : Nat}
     (hclock : ∀ z ∈ s.zones, z.mtime ≤ now) : RelayoutOk s (s.compact shard now) := by
-  refine ⟨vis_compact_perm s shard now, ?_⟩
+  refine ⟨vis_compact_perm s shard now, ?_, by unfold Store.compact; simp only; split <;> exact hp⟩
   unfold Store.compact
   simp only
   split
@@ -625,8 +665,9 @@ theorem compact_ok {s : Store} (hs : s.Truthful) {shard now : Nat}
       have := hclock z0 hz0'
       exact ⟨le_maxOf (mem_map.mpr ⟨r, hr, rfl⟩), by omega⟩
 
-theorem backdate_ok {s : Store} (hs : s.Truthful) : RelayoutOk s s.backdate := by
-  refine ⟨?_, ?_⟩
+theorem backdate_ok {s : Store} (hs : s.Truthful) (hp : s.passive = []) :
+    RelayoutOk s s.backdate := by
+  refine ⟨?_, ?_, hp⟩
   · apply Perm.of_eq
     simp only [Store.vis, Store.backdate, flatMap_map]
   · intro z hz
